@@ -158,6 +158,11 @@ func features(c *Case, res *Result) []string {
 	add(len(c.Sched) > 1, "layers.shared-db")
 	add(c.BadNeighbour, "layers.bad-neighbour")
 	add(len(res.mem.Pre) > 0, "op.prereader.callbacks")
+	add(c.Coalesce != "", "sched.coalesce."+c.Coalesce)
+	for site, n := range res.injected {
+		add(n > 0, "sched.batch-failure-injected."+site)
+		add(site == "nodes" && n > 1, "sched.batch-failure-injected.nodes-streams")
+	}
 	return f
 }
 
